@@ -55,6 +55,10 @@ def run(prog, tier) -> Result:
                sig="catalogue module raises at import time")
         return res
     ref = json.load(open(os.path.join(VERIF, "oracle", "si_reference.json"), encoding="utf-8"))["types"]
+    unb = getattr(cat, "unbound_exports", [])
+    res.ob("R20.1", "quantity.predefined.__all__", f"every exported name is bound ({len(getattr(cat, 'exported', []))} names)",
+           not unb, f"`from quantity.predefined import *` raises AttributeError: {unb[:5]} listed in __all__ but not defined",
+           sig="exported name not defined")
     res.functions.add("quantity.predefined (module-level declarations)")
     res.extra["catalogue_statements"] = cat.statements
     res.extra["catalogue_units"] = len(cat.units)
